@@ -48,6 +48,8 @@ def observe(path):
 
     f = ttLib.TTFont(str(path), lazy=False)
     o = {"tables": sorted(t for t in f.keys() if t in ("COLR", "CPAL", "SVG ", "CBDT", "CBLC", "sbix", "glyf", "CFF ", "CFF2", "GSUB"))}
+    if "COLR" in f:
+        o["colr_version"] = f["COLR"].version
     o["family"] = f["name"].getDebugName(1)
     o["revision"] = round(f["head"].fontRevision, 3)
     o["upem"] = f["head"].unitsPerEm
@@ -99,6 +101,8 @@ def expected(cfg):
         tabs |= {"sbix"}
     tabs |= {"CFF "} if fmt.startswith("cff_") else {"CFF2"} if fmt.startswith("cff2_") else {"glyf"}
     e["tables"] = sorted(tabs)
+    if "_colr_" in fmt:
+        e["colr_version"] = int(fmt[-1])
     keep = cfg["keep_glyph_names"] or fmt.startswith("picosvg")
     e["post3"] = (not cfg["keep_glyph_names"]) if not fmt.startswith("cff") else None
     if fmt == "cbdt":
@@ -426,6 +430,34 @@ def suite_flow_model(ctx, res, n):
     finally:
         shutil.rmtree(tmp, ignore_errors=True)
 
+def suite_formats(ctx, res, thorough):
+    """`color_format` is an option like any other: every value must select ITS tables and ITS COLR version — given by flag or by file"""
+    fmts = ["glyf_colr_0", "glyf_colr_1", "cff_colr_0", "cff_colr_1", "cff2_colr_0", "cff2_colr_1"]
+    fmts += ["glyf", "picosvg", "picosvgz", "untouchedsvg", "untouchedsvgz", "sbix"] if thorough else ctx.rng.sample(["glyf", "picosvgz", "untouchedsvg", "sbix"], 2)
+    jobs = []
+    for k, fmt in enumerate(fmts):
+        if k % 2:
+            # the outline flavour follows the OUTPUT FILE's extension (write_font._make_ttfont): the cff formats are asked for together with an .otf name
+            fl = {"color_format": fmt, **({"output_file": "Font.otf"} if fmt.startswith("cff") else {})}
+            jobs.append((f"color_format={fmt}:flag", fl, None))
+        else:
+            jobs.append((f"color_format={fmt}:file", {}, {"color_format": fmt}))
+    with ThreadPoolExecutor(max_workers=8) as ex:
+        results = list(ex.map(one_build, jobs))
+    for r in results:
+        res.count(key=("format", r["name"]), nontrivial=True)
+        if r["rc"] != 0:
+            res.add_cex("a colour format fails to build", {"build": r["name"], "tail": r.get("tail")}, {"site": "c20-build", "name": r["name"]})
+            continue
+        res.stat("format:built")
+        exp = expected(r["eff"])
+        for key in ("tables", "colr_version"):
+            if key in exp and r["obs"].get(key) != exp[key]:
+                res.add_cex(f"color_format does not select its tables: {key} = {r['obs'].get(key)!r}, expected {exp[key]!r} ({r['name']})",
+                            {"build": r["name"], "observable": key, "expected": exp[key], "actual": r["obs"].get(key)},
+                            {"site": "c20-observable", "observable": key, "build": r["name"].split(":")[0], "how": r["name"].split(":")[-1]})
+
+
 def suite_maximum_color_options(ctx, res, n):
     """options given to `maximum_color` (the other command-line entry point) must reach the tables it adds: `--bitmap_resolution N` decides both the
     size of the rendered bitmaps and the strike's ppem"""
@@ -474,6 +506,7 @@ def run(ctx, res):
     suite_pairs(ctx, res, ctx.budget(3, 9))
     suite_rerun(ctx, res, ctx.budget(3, 6))
     suite_maximum_color_options(ctx, res, ctx.budget(2, 4))
+    suite_formats(ctx, res, ctx.thorough)
 
 
 def search(ctx, res, broken):
